@@ -16,6 +16,7 @@ from .. import anf, trip, zerotrip
 from .common import struct_ob, formula_ob, guard, last_return, U
 from . import mcmc
 from ..report import AnalysisError
+from ..term import Resolver, pmatch
 
 FLOORS = {"trip-count": 4, "length-pair": 4, "run_for.progress": 2, "pool-order": 1,
           "entry-resolves": 10, "equal-steps": 2, "ensemble-length": 1,
@@ -58,29 +59,35 @@ def run(prog, tier):
     c, ts = prog.method("ParallelTempering", "take_steps")
     rel = c.module.relpath
     n_param = ts.args.args[1].arg
-    dicts = [s.value for s in ts.body if isinstance(s, ast.Assign) and isinstance(s.value, ast.Dict)]
-    ok = False
-    why = "no message dictionary"
-    if len(dicts) == 1:
-        d = {k.value: U(v) for k, v in zip(dicts[0].keys, dicts[0].values)}
-        loops = [s for s in ts.body if isinstance(s, ast.For) and U(s.iter) == "self.connections"]
-        ok = (d.get("task") == "'advance'" and d.get("advance_count") == n_param and len(loops) == 1
-              and any(isinstance(x, ast.Call) and U(x.func) == f"{U(loops[0].target)}.send"
-                      for x in ast.walk(loops[0])))
+    rt = Resolver(ts, prog, c.module, c)
+    sends = []
+    for lp in [s_ for s_ in ts.body if isinstance(s_, ast.For) and U(s_.iter) == "self.connections"]:
+        for x in ast.walk(lp):
+            if isinstance(x, ast.Call) and U(x.func) == f"{U(lp.target)}.send" and x.args:
+                sends.append(rt.term(x.args[0], rt.stmt_of(x)))
+    ok, why = False, f"{len(sends)} send(s) over self.connections"
+    if len(sends) == 1 and isinstance(sends[0], ast.Dict):
+        d = {k.value: U(v) for k, v in zip(sends[0].keys, sends[0].values) if isinstance(k, ast.Constant)}
+        ok = d.get("task") == "'advance'" and d.get("advance_count") == n_param
         why = f"message {d}"
     obs.append(struct_ob("equal-steps", qual(c, ts), ok,
                          "take_steps must send the same advance_count (its argument) to every pipe: " + why, rel, ts.lineno))
     tp = prog.function(rel, "tempering_process")
     chain = tp.args.args[0].arg
+    rw = Resolver(tp, prog, prog.module(rel), None)
     ok = False
     for n in ast.walk(tp):
         if isinstance(n, ast.If) and isinstance(n.test, ast.Compare) and isinstance(n.test.comparators[0], ast.Constant) \
                 and n.test.comparators[0].value == "advance":
-            loops = [s for s in n.body if isinstance(s, ast.For)]
-            ok = (len(loops) == 1 and U(loops[0].iter) == "range(D['advance_count'])"
-                  and [U(s) for s in loops[0].body] == [f"{chain}.take_step()"])
+            msg = n.test.left.value.id if isinstance(n.test.left, ast.Subscript) and isinstance(n.test.left.value, ast.Name) else "D"
+            loops = [s_ for s_ in n.body if isinstance(s_, ast.For)]
+            if len(loops) == 1:
+                it = rw.term(loops[0].iter, loops[0], keep=(msg,))
+                steps = [s_ for s_ in loops[0].body if isinstance(s_, ast.Expr) and isinstance(s_.value, ast.Call)
+                         and U(s_.value.func) == f"{chain}.take_step"]
+                ok = pmatch(it, f"range({msg}['advance_count'])") is not None and len(steps) == 1 and len(loops[0].body) == 1
     obs.append(struct_ob("equal-steps", f"{prog.module(rel).name}.tempering_process[advance]", ok,
-                         "the worker must take exactly D['advance_count'] steps", rel, tp.lineno))
+                         "the worker must take exactly message['advance_count'] steps", rel, tp.lineno))
 
     # ---------------------------------------------------------------- length-pair
     for cname in ("MetropolisChain", "GibbsChain", "PcaChain", "HamiltonianChain"):
@@ -121,18 +128,22 @@ def run(prog, tier):
     # ---------------------------------------------------------------- pool-order
     c, padv = prog.method("ChainPool", "advance")
     c2, af = prog.method("ChainPool", "adv_func")
-    a = [s for s in padv.body if isinstance(s, ast.Assign)]
-    ok = False
-    why = ""
-    if len(a) == 1 and U(a[0].targets[0]) == "self.chains" and isinstance(a[0].value, ast.Call):
-        call = a[0].value
-        n_param = padv.args.args[1].arg
-        ok = (U(call.func) == "self.pool.map" and U(call.args[0]) == "self.adv_func"
-              and U(call.args[1]) == f"[({n_param}, chain) for chain in self.chains]")
-        why = U(a[0])
-    body = [U(s) for s in af.body]
+    rp = Resolver(padv, prog, c.module, c)
+    n_param = padv.args.args[1].arg
+    a = [s_ for s_ in ast.walk(padv) if isinstance(s_, ast.Assign) and U(s_.targets[0]) == "self.chains"]
+    ok, why = False, ""
+    if len(a) == 1:
+        t_ = rp.term(a[0].value, a[0])
+        ok = any(pmatch(t_, pt) is not None for pt in (f"self.pool.map(self.adv_func, [({n_param}, _c) for _c in self.chains])",
+                                                        f"list(self.pool.map(self.adv_func, [({n_param}, _c) for _c in self.chains]))"))
+        why = U(t_)
+    ra = Resolver(af, prog, c2.module, c2)
     arg = af.args.args[0].arg
-    ok2 = body == [f"n, chain = {arg}", "chain.advance(n)", "return chain"]
+    advs = [(n_, ra.stmt_of(n_)) for n_ in ast.walk(af) if isinstance(n_, ast.Call) and isinstance(n_.func, ast.Attribute) and n_.func.attr == "advance"]
+    rets_ = ra.return_terms()
+    ok2 = (len(advs) == 1 and U(ra.term(advs[0][0].func.value, advs[0][1])) == f"{arg}[1]" and len(advs[0][0].args) == 1
+           and U(ra.term(advs[0][0].args[0], advs[0][1])) == f"{arg}[0]" and len(rets_) == 1 and U(rets_[0]) == f"{arg}[1]")
+    body = [U(s_) for s_ in af.body]
     obs.append(struct_ob("pool-order", qual(c, padv), ok and ok2,
                          f"the pool must map (ordered) over (n, chain) pairs in chain order and store the returned chains back: "
                          f"{why}; adv_func body {body}", c.module.relpath, padv.lineno))
